@@ -714,6 +714,8 @@ class ExprMixin:
                 else:
                     elem0 = VOpaque(hint='elem')
                 self.assign_target(g.target, elem0, s1)
+                if 'fcalls' in s1.ghost:        # contracts that log the calls of the body want to name the generic element
+                    s1.ghost['generic_elem'] = elem0 if isinstance(elem0, V) else NONE
                 outs = []
                 effect_states = []
                 for c in g.ifs:
